@@ -41,8 +41,8 @@ HUNT, DW0, DW1, DW2, DW3, HDRCHK, PAYLOAD, CRCCHK = range(8)
 
 
 @contextlib.contextmanager
-def open_crc_units():
-    """Bind the CRC class names used by DataPacketReceiver.elaborate() to open (empty-bodied) subclasses."""
+def open_crc_units(mod=data_mod):
+    """Bind the CRC class names used by the elaborate() methods of module `mod` to open (empty-bodied) subclasses."""
     made = {"crc16": [], "crc32": []}
     p16, p32 = Signal(16, name="crc16_out"), Signal(32, name="crc32_out")
 
@@ -64,12 +64,16 @@ def open_crc_units():
         def elaborate(self, platform):
             return Module()
 
-    old = data_mod.HeaderPacketCRC, data_mod.DataPacketPayloadCRC
-    data_mod.HeaderPacketCRC, data_mod.DataPacketPayloadCRC = OpenCRC16, OpenCRC32
+    old = mod.HeaderPacketCRC, getattr(mod, "DataPacketPayloadCRC", None)
+    mod.HeaderPacketCRC = OpenCRC16
+    if old[1] is not None:
+        mod.DataPacketPayloadCRC = OpenCRC32
     try:
         yield p16, p32, made
     finally:
-        data_mod.HeaderPacketCRC, data_mod.DataPacketPayloadCRC = old
+        mod.HeaderPacketCRC = old[0]
+        if old[1] is not None:
+            mod.DataPacketPayloadCRC = old[1]
 
 
 def mask(k):
@@ -242,3 +246,12 @@ def receiver(c):
 
 def contracts(tier):
     yield ("DataPacketReceiver", "", receiver)
+
+
+LEVEL = "proof"
+EXPLANATION = ("Unbounded inductive proof for the real DataPacketReceiver with its CRC units used through their C30 contracts. On the "
+               "unchanged tree the check reports genuine defects (CHECK_CRC32 repeats after 'good' and ignores sink.valid; a zero-length "
+               "payload's CRC32 word is never compared; a control symbol in the last payload word yields two 'bad' reports); "
+               "proposed_fixes/C40_check_crc32_once_and_zlp.diff makes every obligation pass.")
+ASSUMPTIONS = ["data_length <= 1024", "CRC unit contracts (C30)",
+               "a header with wrong CRC-5/CRC-16 is neither reported good nor bad (reading of 'data packet received')"]
